@@ -50,6 +50,18 @@ fn run_case(rec: &mut Rec, d: &Value) {
                 }
             }
         }
+        // very far probes, for the primitives whose contains() is specified to cope with them (the circle based
+        // ones square an i32 distance and are only probed within the display scale)
+        if matches!(s, Shape::Rect(_) | Shape::Ellipse(_) | Shape::RRect(_) | Shape::Triangle(_)) {
+            for dd in [23_171, 32_778, 65_537, 1_000_003, 16_700_000] {
+                for (sx, sy) in [(1, 0), (0, 1), (-1, 0), (0, -1), (1, 1), (-1, 1)] {
+                    let p = bb.center() + Point::new(sx * dd, sy * dd);
+                    if !bb.contains(p) {
+                        far.push(json!([p.x, p.y, s.contains(p) as i32]));
+                    }
+                }
+            }
+        }
         (bb, pts, done, c, far)
     });
     match r {
